@@ -47,6 +47,7 @@ type Program struct {
 	recDefaults bool
 	curFile     *File
 	goRot       int
+	dirFamily   int
 }
 
 type File struct {
@@ -214,6 +215,17 @@ func Gen(o Options) *Program {
 		ds := dirs
 		if len(o.ExtraDirs) > 0 {
 			ds = append(append([]string{}, dirs...), o.ExtraDirs...)
+		}
+		if i == 0 {
+			// one program in three keeps to a small family of directories, so that the
+			// telling combinations (a next to ab below a/b; a/b next to c/b) are not rare
+			p.dirFamily = ch("prog.dir-family", 6)
+		}
+		switch p.dirFamily {
+		case 1:
+			ds = []string{"a", "a/b", "ab"}
+		case 2:
+			ds = []string{"a/b", "c/b", "c"}
 		}
 		f.Dir = ds[ch("prog.dir", len(ds))]
 		p.Files = append(p.Files, f)
